@@ -8,4 +8,22 @@ def run(tier, seed):
     res = G.gx(None, ["accept"], "C01/gx", tier, drop=lambda o: "block-item: static_assert-declaration" in o.name)
     from props import tables
     res.add(tables.c01_tables())
+    # literal and identifier forms (u8/u/U literals, every constant form): the lexer rules against the C99 lexical grammar
+    from pyvc import rx_obligations
+    rx = rx_obligations.c10_obligations(tier)
+    rx.obs = [o for o in rx.obs if o.name.startswith(("C10/lang", "C10/priority"))]
+    for o in rx.obs:
+        o.name = "C01/rx/" + o.name[4:]
+    res.add(rx)
+    kw = rx_obligations.c09_rx_obligations(tier)
+    kw.obs = [o for o in kw.obs if "/keywords" in o.name or "/fixed-buckets" in o.name]
+    for o in kw.obs:
+        o.name = "C01/rx/" + o.name[8:]
+    res.add(kw)
+    # speculative parsing must leave the stream where it was (mark/reset contracts of the token stream)
+    from pyvc.smt_props import run_functions
+    import contracts.tokenstream as TS
+    import contracts.parser_core  # noqa: F401
+    res.add(run_functions(TS.FUNCTIONS + ["CParser._mark", "CParser._reset", "CParser._peek", "CParser._advance", "CParser._accept",
+                                          "CParser._expect"], "C01/smt", tier))
     return res
